@@ -324,7 +324,7 @@ impl VarIntEncoder {
         let (count, count_bytes) = self.decode_leb128_u64(&data[offset..])?;
         offset += count_bytes;
         
-        let mut result = Vec::with_capacity(count as usize);
+        let mut result = Vec::with_capacity((count as usize).min(data.len()));
         
         // Read values
         for _ in 0..count {
@@ -343,7 +343,7 @@ impl VarIntEncoder {
         let (count, count_bytes) = self.decode_leb128_u64(&data[offset..])?;
         offset += count_bytes;
         
-        let mut result = Vec::with_capacity(count as usize);
+        let mut result = Vec::with_capacity((count as usize).min(data.len()));
         
         // Read values
         for _ in 0..count {
@@ -455,7 +455,7 @@ impl VarIntEncoder {
             return Ok(Vec::new());
         }
         
-        let mut result = Vec::with_capacity(count as usize);
+        let mut result = Vec::with_capacity((count as usize).min(data.len()));
         
         // Read first value
         let (first_value, first_bytes) = self.decode_leb128_u64(&data[offset..])?;
@@ -469,11 +469,12 @@ impl VarIntEncoder {
             let prev_value = result[result.len() - 1];
             let next_value = if (encoded_delta & 1) == 0 {
                 // Positive delta
-                prev_value + (encoded_delta >> 1)
+                prev_value.checked_add(encoded_delta >> 1)
             } else {
                 // Negative delta
-                prev_value - (encoded_delta >> 1)
-            };
+                prev_value.checked_sub(encoded_delta >> 1)
+            }
+            .ok_or_else(|| ZiporaError::invalid_data("delta sequence leaves the u64 range"))?;
             
             result.push(next_value);
             offset += delta_bytes;
@@ -493,7 +494,7 @@ impl VarIntEncoder {
             return Ok(Vec::new());
         }
         
-        let mut result = Vec::with_capacity(count as usize);
+        let mut result = Vec::with_capacity((count as usize).min(data.len()));
         
         // Read first value
         let (first_value, first_bytes) = self.decode_leb128_i64(&data[offset..])?;
@@ -565,7 +566,7 @@ impl VarIntEncoder {
         let (count, count_bytes) = self.decode_leb128_u64(&data[offset..])?;
         offset += count_bytes;
         
-        let mut result = Vec::with_capacity(count as usize);
+        let mut result = Vec::with_capacity((count as usize).min(data.len()));
         let mut remaining = count;
         
         while remaining > 0 {
@@ -687,7 +688,7 @@ impl VarIntEncoder {
         let (count, count_bytes) = self.decode_leb128_u64(&data[offset..])?;
         offset += count_bytes;
         
-        let mut result = Vec::with_capacity(count as usize);
+        let mut result = Vec::with_capacity((count as usize).min(data.len()));
         
         // Read values
         for _ in 0..count {
@@ -706,7 +707,7 @@ impl VarIntEncoder {
         let (count, count_bytes) = self.decode_leb128_u64(&data[offset..])?;
         offset += count_bytes;
         
-        let mut result = Vec::with_capacity(count as usize);
+        let mut result = Vec::with_capacity((count as usize).min(data.len()));
         
         // Read values
         for _ in 0..count {
